@@ -407,7 +407,7 @@ class Obl:
         self.res['backend'] = 'native execution (gcc, ASan+UBSan)'
         mo = re.search(r'VF-GRID: evaluated (\d+) failed (\d+)', text)
         if not mo:
-            san = re.search(r'ERROR: AddressSanitizer: [^\n]*|runtime error: [^\n]*|Assertion [^\n]* failed', text)
+            san = re.search(r'ERROR: AddressSanitizer: [^\n]*|ERROR: LeakSanitizer: [^\n]*|runtime error: [^\n]*|Assertion [^\n]* failed', text)
             if san and p.returncode != 0:
                 # the real code died under the sanitizers (or on a library assert) before the grid finished: a definite violation
                 self.res['status'] = 'FAIL'
@@ -426,6 +426,10 @@ class Obl:
             return self.res
         self.res['status'] = 'FAIL'
         fails = [l for l in text.splitlines() if l.startswith('VF-GRID: FAIL')]
+        if not fails:
+            mo2 = re.search(r'ERROR: (?:Address|Leak)Sanitizer: [^\n]*(?:\n[^\n]*){0,6}', text)
+            if mo2:
+                fails = ['VF-GRID: FAIL ' + ' | '.join(x.strip() for x in mo2.group(0).splitlines() if x.strip())[:400]]
         self.res['failed'] = [{'property': s['id'] + '.grid', 'description': (fails or [text.strip()[-300:]])[0], 'location': s['harness']}]
         self.res['counterexample'] = {'grid_failures': fails[:5]}
         self.res['counterexample_raw'] = {}
